@@ -111,30 +111,53 @@ def evaluate_sites(ctx, F, reach, parent, table):
     by_key = {}
     for r in rows:
         by_key[(r["fn"], r["kind"], r["what"])] = r
+
+    def crate_of(fnp):
+        m = re.match(r"^<*([A-Za-z_][A-Za-z0-9_]*)::", fnp)
+        return m.group(1) if m else "?"
+
+    # "moved site" pool: an audited safe row whose function now shows fewer live sites than were audited (the code was
+    # moved / the function renamed or split) can vouch for the same number of sites with the same (crate, kind, primitive)
+    # that surfaced in another function.  Net additions are still violations; findings are never moved.
+    deficit = {}
+    for (fnp, kind, what), r in by_key.items():
+        if r["disposition"] != "safe":
+            continue
+        live = len(groups.get((fnp, kind, what), ()))
+        if live < r["count"]:
+            deficit.setdefault((crate_of(fnp), kind, what), []).extend([r] * (r["count"] - live))
     used = set()
+    n_moved = 0
     for (fnp, kind, what), ss in sorted(groups.items()):
         r = by_key.get((fnp, kind, what))
         key = "%s|%s|%s" % (fnp, kind, what)
-        if r is None:
-            for i, s in enumerate(ss):
-                ctx.violation("R-REACH", "site:%s#%d" % (key, i),
-                              "new panic-capable site in input-reachable code: %s `%s` in %s at %s (not in the audited table)" % (kind, what, fnp, s["loc"]),
-                              {"fn": fnp, "loc": s["loc"], "ex": s["ex"], "msg": s.get("msg"), "chain": [F.fns[x].path for x in F.chain(parent, s["fn"].id)][-6:]})
-            continue
-        used.add((fnp, kind, what))
-        if r["disposition"] == "finding":
+        if r is not None and r["disposition"] == "finding":
+            used.add((fnp, kind, what))
             for i, s in enumerate(ss):
                 ctx.violation("R-REACH", "site:%s#%d" % (key, i), "%s (%s at %s)" % (r["reason"], what, s["loc"]), {"loc": s["loc"]})
             continue
-        n = len(ss)
-        if n > r["count"]:
-            for i, s in enumerate(ss[r["count"]:]):
-                ctx.violation("R-REACH", "site:%s#extra%d" % (key, i),
-                              "%s now has %d `%s` sites, the audited table allows %d: new panic-capable site at %s" % (fnp, n, what, r["count"], s["loc"]), {"loc": s["loc"]})
-        for s in ss[:r["count"]]:
+        allowed = r["count"] if r is not None else 0
+        if r is not None:
+            used.add((fnp, kind, what))
+        for s in ss[:allowed]:
             ctx.ok("R-REACH", "row:" + key, r["reason"], sample={"site": s["loc"], "reason": r["reason"]} if len(ctx.samples) < 25 else None)
+        for i, s in enumerate(ss[allowed:]):
+            pool = deficit.get((crate_of(fnp), kind, what))
+            if pool:
+                src = pool.pop()
+                n_moved += 1
+                ctx.ok("R-REACH", "moved:" + key, "site moved from %s (audited there: %s)" % (src["fn"], src["reason"]),
+                       sample={"site": s["loc"], "moved_from": src["fn"]})
+                continue
+            if r is None:
+                ctx.violation("R-REACH", "site:%s#%d" % (key, i),
+                              "new panic-capable site in input-reachable code: %s `%s` in %s at %s (not in the audited table)" % (kind, what, fnp, s["loc"]),
+                              {"fn": fnp, "loc": s["loc"], "ex": s["ex"], "msg": s.get("msg"), "chain": [F.fns[x].path for x in F.chain(parent, s["fn"].id)][-6:]})
+            else:
+                ctx.violation("R-REACH", "site:%s#extra%d" % (key, i),
+                              "%s now has %d `%s` sites, the audited table allows %d: new panic-capable site at %s" % (fnp, len(ss), what, r["count"], s["loc"]), {"loc": s["loc"]})
     stale = [k for k in by_key if k not in used]
-    ctx.notes.append("table rows without a live site (code moved or removed): %d" % len(stale))
+    ctx.notes.append("table rows without a live site (code moved or removed): %d; sites accepted as moved: %d" % (len(stale), n_moved))
 
     return sites, n_auto
 
@@ -251,9 +274,7 @@ def check(ctx):
             bounded = True
             why = []
             for e in cand:
-                leaves = [s for s in walk(e) if s[0] in ("call", "param", "upvar", "field", "const")]
-                okc = e[0] == "const" or any(s[0] == "call" and s[1].endswith(("::len", "ExactSizeIterator>::len")) for s in walk(e)) or \
-                    all(s[0] == "const" for s in walk(e) if s[0] in ("const", "param", "field", "call", "upvar"))
+                okc = _size_bounded(e)
                 if not okc:
                     bounded = False
                     why.append(show(e)[:120])
@@ -315,6 +336,43 @@ def check(ctx):
                     "the release profile no longer enables overflow-checks: arithmetic on wire values would wrap silently")
     except OSError:
         ctx.violation("R-CFG", "profile:read", "cannot read /repo/Cargo.toml")
+
+
+_LEN_CALLS = ("::len", "ExactSizeIterator>::len", "::size_hint", "::capacity", "::count")
+_SIZE_COMBINATORS = ("::unwrap_or", "::unwrap_or_default", "::min", "::max", "::saturating_add", "::saturating_sub", "::saturating_mul",
+                     "::checked_add", "::checked_mul", "::checked_sub", "::next_power_of_two", "::map", "::unwrap_or_else", "::map_or", "::unwrap",
+                     "::expect", "::div_ceil")
+
+
+def _size_bounded(e):
+    """The size expression is built only from constants and lengths of in-memory containers, combined by arithmetic,
+    casts, min/max/unwrap_or-style combinators and control-flow joins.  Any other leaf (a field of decoded data, a
+    parameter, the result of another call) makes it data-chosen."""
+    t = e[0]
+    if t == "const":
+        return True
+    if t == "call":
+        if e[1].endswith(_LEN_CALLS):
+            return True
+        if e[1].endswith(_SIZE_COMBINATORS):
+            return all(_size_bounded(a) for a in e[2] if a[0] not in ("closure", "fnref"))
+        return False
+    if t == "bin":
+        return _size_bounded(e[2]) and _size_bounded(e[3])
+    if t in ("un",):
+        return _size_bounded(e[2])
+    if t == "cast":
+        return _size_bounded(e[2])
+    if t == "phi":
+        return all(_size_bounded(x) for x in e[1])
+    if t in ("ok", "try", "err"):
+        return _size_bounded(e[1])
+    if t == "tuple":
+        return all(_size_bounded(x) for x in e[1])
+    if t == "field" and e[1][0] in ("tuple", "call", "bin") and e[2] in ("0", "1"):
+        # (a op b).0 of a checked-arithmetic pair, size_hint().0
+        return _size_bounded(e[1])
+    return False
 
 
 def _sccs(g):
